@@ -56,6 +56,8 @@ pub struct Shared {
     pub wwaker: Option<Waker>,
     /// the client wrote more than `WRITE_BUDGET` bytes in one schedule: a write loop that does not end
     pub runaway: bool,
+    /// number of `poll_write` calls so far (a loop that keeps calling without making progress)
+    pub wcalls: usize,
     /// vectored writes: 0 = the transport does not advertise them; 1 = it does and takes the first
     /// non-empty slice per call (what the default `poll_write_vectored` does — every such write ends
     /// exactly on a slice boundary); 2 = it does and gathers across slices up to `wcap` bytes
@@ -65,6 +67,8 @@ pub struct Shared {
 /// no schedule makes the client write anywhere near this much (requests are a few hundred bytes);
 /// beyond it the transport fails every write and the schedule's outcome is `RUNAWAY`
 const WRITE_BUDGET: usize = 8 << 20;
+/// … and none calls `poll_write` this often (the largest list, 10 KB at one byte per call, needs 10 000)
+const WRITE_CALL_BUDGET: usize = 300_000;
 
 /// the transport's write acceptance is part of the schedule: it is derived from the schedule's seed
 /// and so is its support for vectored writes
@@ -115,7 +119,8 @@ impl AsyncWrite for SimIo {
         if let Some(k) = s.werr {
             return Poll::Ready(Err(io::Error::new(IO_KINDS[k], "scripted write fault")));
         }
-        if s.written.len() > WRITE_BUDGET {
+        s.wcalls += 1;
+        if s.written.len() > WRITE_BUDGET || s.wcalls > WRITE_CALL_BUDGET {
             s.runaway = true;
             return Poll::Ready(Err(io::Error::new(io::ErrorKind::Other, "write budget exceeded")));
         }
